@@ -298,16 +298,21 @@ Section Matcher.
     Variable lookup : option (list Z).              (* road class file *)
     Variable truck_ok : cand -> bool.               (* vehicle restrictions under the query's parameters *)
 
+    (* the first admissible record decides: without a tolerance it is the match (no distance is computed);
+       with one, its great-circle distance is tested *)
+    Definition decide (p : point) (c : cand) : res (option cand) :=
+      match tol with
+      | None => Ok (Some c)
+      | Some _ => do dm <- hav p (cpt c);
+                  Ok (if within_tolerance tol dm then Some c else None)
+      end.
     (* the body of `for record in rtree.nearest_neighbor_iter(&point)` *)
     Fixpoint scan (rcq : option (list Z)) (p : point) (l : list cand) : res (option cand) :=
       match l with
       | [] => Ok None
       | c :: r =>
           do vc <- valid_class rcq lookup c;
-          if vc && truck_ok c
-          then do dm <- hav p (cpt c);
-               Ok (if within_tolerance tol dm then Some c else None)
-          else scan rcq p r
+          if vc && truck_ok c then decide p c else scan rcq p r
       end.
     Definition search (rcq : option (list Z)) (p : point) : res (option cand) :=
       scan rcq p (nn_iter p es).
